@@ -96,6 +96,82 @@ func setWithCapShape() (maxDepth, defers int) {
 	return maxDepth, defers
 }
 
+// lockCalls walks one function body and counts the segment write-lock and
+// read-lock acquisitions (`<x>.rwlock.Lock()` / `<x>.rwlock.RLock()`).
+func lockCalls(body *ast.BlockStmt) (w, r int) {
+	ast.Inspect(body, func(n ast.Node) bool {
+		call, ok := n.(*ast.CallExpr)
+		if !ok {
+			return true
+		}
+		sel, ok := call.Fun.(*ast.SelectorExpr)
+		if !ok {
+			return true
+		}
+		recv, ok := sel.X.(*ast.SelectorExpr)
+		if !ok || recv.Sel.Name != "rwlock" {
+			return true
+		}
+		switch sel.Sel.Name {
+		case "Lock":
+			w++
+		case "RLock":
+			r++
+		}
+		return true
+	})
+	return
+}
+
+// mutatorsWithoutWriteLock lists the mutating methods of the segmented table
+// and of Cache that do NOT take the segment WRITE lock (or that take a read
+// lock): the compare-then-act of CompareAndSwap / CompareAndDelete and every
+// Put/Del/Evict must run under the write lock of the key's segment.
+// "<file>:missing" entries mean the source could not be read.
+func mutatorsWithoutWriteLock() []string {
+	repo := os.Getenv("VERIF_REPO")
+	if repo == "" {
+		repo = "/repo"
+	}
+	want := map[string][]string{
+		"internal/cache/segment_uint64_map.go": {"Set", "SetWithCap", "PutIfNotExists", "Del", "Clear", "ClearSegment"},
+		"internal/cache/cache.go":              {"CompareAndSwap", "CompareAndDelete"},
+	}
+	bad := []string{}
+	for _, rel := range []string{"internal/cache/segment_uint64_map.go", "internal/cache/cache.go"} {
+		fset := token.NewFileSet()
+		file, err := parser.ParseFile(fset, filepath.Join(repo, rel), nil, 0)
+		if err != nil {
+			bad = append(bad, rel+":missing")
+			continue
+		}
+		seen := map[string]bool{}
+		for _, d := range file.Decls {
+			fd, ok := d.(*ast.FuncDecl)
+			if !ok || fd.Recv == nil || fd.Body == nil {
+				continue
+			}
+			for _, name := range want[rel] {
+				if fd.Name.Name != name {
+					continue
+				}
+				seen[name] = true
+				if w, r := lockCalls(fd.Body); w == 0 || r != 0 {
+					bad = append(bad, name)
+				} else if actsBeforeLock(fd.Body) {
+					bad = append(bad, name+":act-before-lock")
+				}
+			}
+		}
+		for _, name := range want[rel] {
+			if !seen[name] {
+				bad = append(bad, name+":not-found")
+			}
+		}
+	}
+	return bad
+}
+
 func facts() map[string]any {
 	var growPairs [][]int
 	for _, c := range []int{0, 8, 9, 12, 13, 24, 25, 48, 100, 1000, 100000} {
@@ -125,14 +201,53 @@ func facts() map[string]any {
 	}
 	depth, defers := setWithCapShape()
 	return map[string]any{
-		"grow_pairs":                growPairs,
-		"seg_counts":                segCounts,
-		"cache_segments":            cacheSegs,
-		"segmap_global_locks":       lockFields(segMapT),
-		"cache_global_locks":        lockFields(reflect.TypeOf((*cache.Cache)(nil))) + lockFields(reflect.TypeOf((*cache.SyncUInt64Map[any])(nil))),
-		"segment_locks":             segmentLocks,
-		"setwithcap_max_lock_depth": depth,
-		"setwithcap_defers":         defers,
-		"limiter_global_locks":      lockFields(reflect.TypeOf((*ratelimit.LimiterStore)(nil))),
+		"grow_pairs":                  growPairs,
+		"seg_counts":                  segCounts,
+		"cache_segments":              cacheSegs,
+		"segmap_global_locks":         lockFields(segMapT),
+		"cache_global_locks":          lockFields(reflect.TypeOf((*cache.Cache)(nil))) + lockFields(reflect.TypeOf((*cache.SyncUInt64Map[any])(nil))),
+		"segment_locks":               segmentLocks,
+		"setwithcap_max_lock_depth":   depth,
+		"setwithcap_defers":           defers,
+		"limiter_global_locks":        lockFields(reflect.TypeOf((*ratelimit.LimiterStore)(nil))),
+		"mutators_without_write_lock": mutatorsWithoutWriteLock(),
+		"segmap_count_atomic":         countIsAtomic(segMapT),
 	}
+}
+
+// countIsAtomic: the global entry counter is a sync/atomic integer.
+func countIsAtomic(t reflect.Type) bool {
+	f, ok := t.FieldByName("count")
+	return ok && f.Type.PkgPath() == "sync/atomic"
+}
+
+// actsBeforeLock: some table access (Get/Has/Put/PutIfNotExists/Del/
+// EvictKeysAt/Clear/Len on a segment's table) occurs in source order before the
+// first `.rwlock.Lock()` of the function — a check outside the critical
+// section.
+func actsBeforeLock(body *ast.BlockStmt) bool {
+	firstLock, firstAct := token.NoPos, token.NoPos
+	acts := map[string]bool{"Get": true, "Has": true, "Put": true, "PutIfNotExists": true, "Del": true,
+		"EvictKeysAt": true, "Clear": true, "Len": true}
+	ast.Inspect(body, func(n ast.Node) bool {
+		call, ok := n.(*ast.CallExpr)
+		if !ok {
+			return true
+		}
+		sel, ok := call.Fun.(*ast.SelectorExpr)
+		if !ok {
+			return true
+		}
+		if recv, ok := sel.X.(*ast.SelectorExpr); ok && recv.Sel.Name == "rwlock" && sel.Sel.Name == "Lock" {
+			if firstLock == token.NoPos {
+				firstLock = call.Pos()
+			}
+			return true
+		}
+		if acts[sel.Sel.Name] && firstAct == token.NoPos {
+			firstAct = call.Pos()
+		}
+		return true
+	})
+	return firstAct != token.NoPos && (firstLock == token.NoPos || firstAct < firstLock)
 }
